@@ -72,7 +72,10 @@ def model (toks : List String) : Option String :=
     | none => none
   | "ALIKE" :: n :: rest => do
     let _ ← n.toNat?
-    let vals ← rest.mapM fun t => intArg t 0
+    -- ToUint8: the exact integer part (no int64 saturation) modulo 256
+    let vals ← rest.mapM fun t =>
+      if t.startsWith "N:" then (parseHexNat (t.drop 2).toString).map fun n => (F64.mk (UInt64.ofNat n)).toIntegerExact
+      else intArg t 0
     pure (hexOfBytes (fromArrayLike vals))
   | ["EQ", a, b] => do pure (if (← parseHexBytes a) == (← parseHexBytes b) then "t" else "f")
   | ["COPY", k] => pure (if k == "arraybuffer" then "shared" else "copied")
